@@ -16,6 +16,7 @@ structure CEok (sb : Sub) (e : CE) : Prop where
   le : e.stamp ≤ sb.ver e.dep
   iff : (e.stamp = sb.ver e.dep ∧ e.flag = true) ↔ e.fresh = true
   off : e.flag = false → e.hasPre = false → e.stamp = 0
+  below : sb.cur < e.dep → e.stamp < sb.ver e.dep     -- below its depends-on stage an entry is stale by its stamp
 
 def Ghost (st : St) : Prop := ∀ sb ∈ st.subs, ∀ e ∈ sb.ces, CEok sb e
 
@@ -24,26 +25,28 @@ theorem CEok.invN {sb : Sub} {e : CE} (h : CEok sb e) (n : Nat) : CEok sb (e.inv
   split
   · exact h
   · have := h.vpos
-    exact ⟨h.vpos, by simp, by simp, by simp⟩
+    exact ⟨h.vpos, by simp, by simp, by simp, fun _ => by simp only; omega⟩
 
-theorem CEok.congr {sb sb' : Sub} {e e' : CE} (h : CEok sb e) (hv : sb'.vers = sb.vers) (hd : e'.dep = e.dep)
+theorem CEok.congr {sb sb' : Sub} {e e' : CE} (h : CEok sb e) (hv : sb'.vers = sb.vers) (hc : sb.cur ≤ sb'.cur)
+    (hd : e'.dep = e.dep)
     (hs : e'.stamp = e.stamp) (hf : e'.flag = e.flag) (hr : e'.fresh = e.fresh) (hp : e'.hasPre = e.hasPre) :
     CEok sb' e' := by
   have hver : ∀ g, sb'.ver g = sb.ver g := fun g => by unfold Sub.ver; rw [hv]
   exact ⟨by rw [hver, hd]; exact h.vpos, by rw [hver, hd, hs]; exact h.le,
-         by rw [hver, hd, hs, hf, hr]; exact h.iff, by rw [hf, hp, hs]; exact h.off⟩
+         by rw [hver, hd, hs, hf, hr]; exact h.iff, by rw [hf, hp, hs]; exact h.off,
+         by rw [hver, hd, hs]; intro hlt; exact h.below (by omega)⟩
 
 theorem Ghost.mapCE {st : St} (h : Ghost st) (f : Key → CE → CE)
     (hf : ∀ k sb e, CEok sb e → CEok sb (f k e)) : Ghost (st.mapCE f) := by
   intro sb' hsb' e' he'
   obtain ⟨s, sb, hsb, rfl⟩ := mem_mapI hsb'
   obtain ⟨c, e, he, rfl⟩ := mem_mapI he'
-  exact (hf (s, c) sb e (h sb hsb e he)).congr rfl rfl rfl rfl rfl rfl
+  exact (hf (s, c) sb e (h sb hsb e he)).congr rfl (Nat.le_refl _) rfl rfl rfl rfl rfl
 
 theorem Ghost.mapDV {st : St} (h : Ghost st) (f : Key → DV → DV) : Ghost (st.mapDV f) := by
   intro sb' hsb' e' he'
   obtain ⟨s, sb, hsb, rfl⟩ := mem_mapI hsb'
-  exact (h sb hsb e' he').congr rfl rfl rfl rfl rfl rfl
+  exact (h sb hsb e' he').congr rfl (Nat.le_refl _) rfl rfl rfl rfl rfl
 
 theorem Ghost.invalidateMany {st : St} (h : Ghost st) (ks : List Key) : Ghost (st.invalidateMany ks) :=
   h.mapCE _ (fun _ _ _ he => he.invN _)
@@ -59,7 +62,7 @@ theorem Ghost.register {st : St} (h : Ghost st) (k : Key) (e : CE) : Ghost (st.r
   simp only
   refine Ghost.mapCE ?_ _ (fun _ _ c hc => by
     split
-    · exact hc.congr rfl rfl rfl rfl rfl rfl
+    · exact hc.congr rfl (Nat.le_refl _) rfl rfl rfl rfl rfl
     · exact hc)
   exact Ghost.mapDV (h.of_subs (by rfl)) _
 
@@ -68,7 +71,7 @@ theorem Ghost.unregister {st : St} (h : Ghost st) (k : Key) (e : CE) : Ghost (st
   simp only
   refine Ghost.mapCE ?_ _ (fun _ _ c hc => by
     split
-    · exact hc.congr rfl rfl rfl rfl rfl rfl
+    · exact hc.congr rfl (Nat.le_refl _) rfl rfl rfl rfl rfl
     · exact hc)
   exact Ghost.mapDV (h.of_subs (by rfl)) _
 
@@ -106,24 +109,31 @@ theorem Ghost.modCE {st : St} (h : Ghost st) (k : Key) (f : CE → CE)
   apply h.modSub
   intro sb hs hall e' he'
   rcases mem_modAt he' with hm | ⟨x, hx, rfl⟩
-  · exact (hall e' hm).congr rfl rfl rfl rfl rfl rfl
-  · exact (hf sb x hs (hall x (List.mem_of_getElem? hx))).congr rfl rfl rfl rfl rfl rfl
+  · exact (hall e' hm).congr rfl (Nat.le_refl _) rfl rfl rfl rfl rfl
+  · exact (hf sb x hs (hall x (List.mem_of_getElem? hx))).congr rfl (Nat.le_refl _) rfl rfl rfl rfl rfl
 
 theorem Ghost.modDV {st : St} (h : Ghost st) (k : Key) (f : DV → DV) : Ghost (st.modDV k f) := by
   unfold St.modDV
   apply h.modSub
   intro sb _ hall e he
-  exact (hall e he).congr rfl rfl rfl rfl rfl rfl
+  exact (hall e he).congr rfl (Nat.le_refl _) rfl rfl rfl rfl rfl
 
-theorem Ghost.markCE {st : St} (h : Ghost st) (k : Key) : Ghost (st.markCE k) := by
+theorem Ghost.markCE {st : St} (h : Ghost st) (k : Key)
+    (hk : ∀ sb e, st.subs[k.1]? = some sb → sb.ces[k.2]? = some e → e.dep ≤ sb.cur) : Ghost (st.markCE k) := by
   unfold St.markCE
   split
   · exact h
   · rename_i sb hs
-    apply h.modCE
-    intro sb' e hs' he
+    unfold St.modCE
+    apply h.modSub
+    intro sb' hs' hall e' he'
     rw [hs] at hs'; cases hs'
-    exact ⟨he.vpos, Nat.le_refl _, by simp, by simp⟩
+    rcases mem_modAt he' with hm | ⟨x, hx, rfl⟩
+    · exact (hall e' hm).congr rfl (Nat.le_refl _) rfl rfl rfl rfl rfl
+    · have he := hall x (List.mem_of_getElem? hx)
+      have hdep := hk sb x hs hx
+      exact ⟨he.vpos, Nat.le_refl _, ⟨fun _ => rfl, fun _ => ⟨rfl, rfl⟩⟩, by simp,
+             fun (hlt : sb.cur < x.dep) => absurd hdep (by omega)⟩
 
 /-! ### restoreToStage -/
 
@@ -142,21 +152,30 @@ theorem CEok.restore {sb : Sub} {e : CE} (h : CEok sb e) (g : Nat) (hc : ¬ sb.c
     unfold Sub.restore Sub.ver
     simp only [hc, if_false, hg]
     exact getD_bump _ _ _ _ hl
+  have hcur : (sb.restore g).cur = g := by
+    unfold Sub.restore; simp only [hc, if_false, hg]
   have h1 := h.vpos; have h2 := h.le
   unfold CE.unfresh
-  by_cases hb : g < e.dep ∧ e.dep ≤ sb.cur
-  · have hb' : g + 1 ≤ e.dep ∧ e.dep ≤ sb.cur := ⟨hb.1, hb.2⟩
-    simp only [hb, and_self, if_true]
-    rw [if_pos hb'] at hver
-    refine ⟨by simp only; omega, by simp only; omega, ?_, h.off⟩
-    simp only [hver]
-    constructor
-    · intro ⟨h3, _⟩; omega
-    · intro h3; cases h3
-  · have hb' : ¬ (g + 1 ≤ e.dep ∧ e.dep ≤ sb.cur) := fun hx => hb ⟨hx.1, hx.2⟩
-    simp only [hb, if_false]
-    rw [if_neg hb'] at hver
-    exact ⟨by rw [hver]; exact h1, by rw [hver]; exact h2, by rw [hver]; exact h.iff, h.off⟩
+  by_cases hb : g < e.dep
+  · simp only [hb, if_true]
+    by_cases hb2 : e.dep ≤ sb.cur
+    · rw [if_pos ⟨hb, hb2⟩] at hver
+      refine ⟨by simp only; omega, by simp only; omega, ?_, h.off, fun _ => by simp only; omega⟩
+      simp only [hver]
+      constructor
+      · intro ⟨h3, _⟩; omega
+      · intro h3; cases h3
+    · rw [if_neg (fun hx => hb2 hx.2)] at hver
+      have h3 := h.below (by omega)
+      refine ⟨by simp only; omega, by simp only; omega, ?_, h.off, fun _ => by simp only; omega⟩
+      simp only [hver]
+      constructor
+      · intro ⟨h4, _⟩; omega
+      · intro h4; cases h4
+  · simp only [hb, if_false]
+    rw [if_neg (fun hx => hb (by omega))] at hver
+    exact ⟨by rw [hver]; exact h1, by rw [hver]; exact h2, by rw [hver]; exact h.iff, h.off,
+           fun hlt => by rw [hcur] at hlt; omega⟩
 
 theorem Ghost.restore_sub {sb : Sub} (h : ∀ e ∈ sb.ces, CEok sb e) (g : Nat) :
     ∀ e ∈ (sb.restore g).ces, CEok (sb.restore g) e := by
@@ -229,7 +248,7 @@ theorem Ghost.autoUpdateOne {st : St} (h : Ghost st) (k : Key) : Ghost (st.autoU
         · apply Ghost.notify
           apply Ghost.modCE
           · exact h.modDV _ _
-          · intro sb e _ he; exact he.congr rfl rfl rfl rfl rfl rfl
+          · intro sb e _ he; exact he.congr rfl (Nat.le_refl _) rfl rfl rfl rfl rfl
         · exact h
 
 theorem Ghost.foldl_autoUpdateOne (l : List Key) {st : St} (h : Ghost st) :
@@ -248,7 +267,7 @@ theorem Inv.ver_pos {st : St} (h : Inv st) {s : Nat} {sb : Sub} (hs : st.subs[s]
 
 theorem CEok.new {sb : Sub} (e : CE) (hv : 1 ≤ sb.ver e.dep) (hs : e.stamp = 0) (hf : e.fresh = false) :
     CEok sb e := by
-  refine ⟨hv, by omega, ?_, fun _ _ => hs⟩
+  refine ⟨hv, by omega, ?_, fun _ _ => hs, fun _ => by omega⟩
   rw [hs, hf]
   constructor
   · intro ⟨h1, _⟩; omega
@@ -259,10 +278,11 @@ theorem Ghost.pushCE_sub {sb : Sub} (h : ∀ e ∈ sb.ces, CEok sb e) (e0 : CE) 
   intro e he
   simp only [Sub.pushCE, List.mem_append, List.mem_singleton] at he
   rcases he with he | rfl
-  · exact (h e he).congr rfl rfl rfl rfl rfl rfl
-  · exact h0.congr rfl rfl rfl rfl rfl rfl
+  · exact (h e he).congr rfl (Nat.le_refl _) rfl rfl rfl rfl rfl
+  · exact h0.congr rfl (Nat.le_refl _) rfl rfl rfl rfl rfl
 
-theorem Ghost.stepS {st : St} (hI : Inv st) (h : Ghost st) (op : SOp) (hl : legalS st op = true) :
+theorem Ghost.stepS {st : St} (hI : Inv st) (h : Ghost st) (op : SOp) (hl : legalS st op = true)
+    (hstrict : strictS st op = true) :
     Ghost (C18.stepS st op) := by
   unfold C18.stepS
   cases hexc : excOf st op with
@@ -270,32 +290,36 @@ theorem Ghost.stepS {st : St} (hI : Inv st) (h : Ghost st) (op : SOp) (hl : lega
   | none =>
   simp only
   have keep : ∀ (s : Nat) (f : Sub → Sub), (∀ sb, (f sb).ces = sb.ces) → (∀ sb, (f sb).vers = sb.vers) →
-      Ghost (st.modSub s f) := by
-    intro s f h1 h2
+      (∀ sb, sb.cur ≤ (f sb).cur) → Ghost (st.modSub s f) := by
+    intro s f h1 h2 h3
     apply h.modSub
     intro sb _ hall e he
     rw [h1] at he
-    exact (hall e he).congr (h2 sb) rfl rfl rfl rfl rfl
+    exact (hall e he).congr (h2 sb) (h3 sb) rfl rfl rfl rfl rfl
   cases op with
-  | advSub s g => exact keep s _ (fun _ => rfl) (fun _ => rfl)
+  | advSub s g =>
+    apply h.modSub
+    intro sb hsb hall e he
+    simp only [legalS, hsb, Bool.and_eq_true, decide_eq_true_eq, beq_iff_eq] at hl
+    exact (hall e he).congr rfl (by show sb.cur ≤ g; omega) rfl rfl rfl rfl rfl
   | advSys g => exact h.advSys g
   | invalAll g => exact h.invalAll g
   | invalCache g => exact h.invalAll g
-  | allocQ s vals => exact keep s _ (fun _ => rfl) (fun _ => rfl)
-  | allocU s vals => exact keep s _ (fun _ => rfl) (fun _ => rfl)
-  | allocZ s vals => exact keep s _ (fun _ => rfl) (fun _ => rfl)
-  | allocQErr s n => exact keep s _ (fun _ => rfl) (fun _ => rfl)
-  | allocUErr s n => exact keep s _ (fun _ => rfl) (fun _ => rfl)
-  | allocUDotErr s n => exact keep s _ (fun _ => rfl) (fun _ => rfl)
-  | allocTrig s g n => exact keep s _ (fun _ => rfl) (fun _ => rfl)
-  | allocDV s inv v => exact keep s _ (fun _ => rfl) (fun _ => rfl)
+  | allocQ s vals => exact keep s _ (fun _ => rfl) (fun _ => rfl) (fun _ => Nat.le_refl _)
+  | allocU s vals => exact keep s _ (fun _ => rfl) (fun _ => rfl) (fun _ => Nat.le_refl _)
+  | allocZ s vals => exact keep s _ (fun _ => rfl) (fun _ => rfl) (fun _ => Nat.le_refl _)
+  | allocQErr s n => exact keep s _ (fun _ => rfl) (fun _ => rfl) (fun _ => Nat.le_refl _)
+  | allocUErr s n => exact keep s _ (fun _ => rfl) (fun _ => rfl) (fun _ => Nat.le_refl _)
+  | allocUDotErr s n => exact keep s _ (fun _ => rfl) (fun _ => rfl) (fun _ => Nat.le_refl _)
+  | allocTrig s g n => exact keep s _ (fun _ => rfl) (fun _ => rfl) (fun _ => Nat.le_refl _)
+  | allocDV s inv v => exact keep s _ (fun _ => rfl) (fun _ => rfl) (fun _ => Nat.le_refl _)
   | allocAutoDV s inv v ud =>
     apply h.modSub
     intro sb hs hall
     simp only [legalS, hs, hexc, Option.isSome_none, Bool.false_or, Bool.and_eq_true, decide_eq_true_eq] at hl
     have hall' : ∀ e ∈ (sb.pushDV { alloc := sb.cur + 1, inval := inv, value := v, auto := some sb.ces.length }).ces,
         CEok (sb.pushDV { alloc := sb.cur + 1, inval := inv, value := v, auto := some sb.ces.length }) e :=
-      fun e he => (hall e he).congr rfl rfl rfl rfl rfl rfl
+      fun e he => (hall e he).congr rfl (Nat.le_refl _) rfl rfl rfl rfl rfl
     exact Ghost.pushCE_sub hall' _ (CEok.new _ (hI.ver_pos hs hl.2) rfl rfl)
   | allocCE s dep comp v =>
     apply h.modSub
@@ -316,18 +340,35 @@ theorem Ghost.stepS {st : St} (hI : Inv st) (h : Ghost st) (op : SOp) (hl : lega
       rw [hs] at hs'; cases hs'
       have hx := excOf_allocCEpre_none hs hexc
       exact Ghost.pushCE_sub hall _ (CEok.new _ (hI.ver_pos hs hx.2.1) rfl rfl)
-  | mark s c => exact h.markCE _
+  | mark s c =>
+    refine h.markCE (s, c) ?_
+    intro sb e hsb he
+    simp only [strictS] at hstrict
+    have hsb' : st.subs[s]? = some sb := hsb
+    have he' : sb.ces[c]? = some e := he
+    simp only [hsb', he', decide_eq_true_eq] at hstrict
+    exact hstrict
   | unmark s c => exact h.notify _
   | markDVUpd s d =>
     show Ghost (match st.dv? (s, d) with
       | some dv => match dv.auto with | some cx => st.markCE (s, cx) | none => st
       | none => st)
     split
-    · split
-      · exact h.markCE _
+    · rename_i dv hdv
+      split
+      · rename_i cx hcx
+        refine h.markCE (s, cx) ?_
+        intro sb e hsb he
+        obtain ⟨sb0, hs0, hd0⟩ := dv?_mem hdv
+        have hsb' : st.subs[s]? = some sb := hsb
+        rw [hs0] at hsb'; cases hsb'
+        have he' : sb.ces[cx]? = some e := he
+        have hd0' : sb.dvs[d]? = some dv := hd0
+        simp only [strictS, hs0, hd0', hcx, he', decide_eq_true_eq] at hstrict
+        exact hstrict
       · exact h
     · exact h
-  | setCE s c v => exact h.modCE _ _ (fun _ _ _ he => he.congr rfl rfl rfl rfl rfl rfl)
+  | setCE s c v => exact h.modCE _ _ (fun _ _ _ he => he.congr rfl (Nat.le_refl _) rfl rfl rfl rfl rfl)
   | getCE s c => exact h
   | setDV s d v => exact h.setDV _ _
   | updQ w => exact Ghost.of_subs (h.invalAll 5).noteQ (by rfl)
@@ -363,7 +404,7 @@ theorem CEok.copied {sb : Sub} {e : CE} (h : CEok sb e) :
     exact getD_mapI_nat _ _ _ hl
   have hpre : (e.copied (min sb.cur 3)).hasPre = e.hasPre := rfl
   have h1 := h.vpos; have h2 := h.le
-  refine ⟨?_, ?_, ?_, ?_⟩
+  refine ⟨?_, ?_, ?_, ?_, ?_⟩
   · show 1 ≤ (Sub.copyOf sb).ver e.dep
     rw [hver]; split <;> omega
   · show e.stamp ≤ (Sub.copyOf sb).ver e.dep
@@ -386,6 +427,10 @@ theorem CEok.copied {sb : Sub} {e : CE} (h : CEok sb e) :
       intro h3; omega
   · show (!(e.copied (min sb.cur 3)).hasPre) = false → (e.copied (min sb.cur 3)).hasPre = false → e.stamp = 0
     intro h3 h4; rw [h4] at h3; cases h3
+  · show (Sub.copyOf sb).cur < e.dep → e.stamp < (Sub.copyOf sb).ver e.dep
+    intro hlt
+    have hlt' : min sb.cur 3 < e.dep := hlt
+    rw [hver, if_neg (by omega)]; omega
 
 theorem Ghost.copyFrom {src : St} (h : Ghost src) (dstVers : List Nat) : Ghost (St.copyFrom dstVers src) := by
   unfold St.copyFrom St.registerAll
@@ -399,7 +444,7 @@ theorem Ghost.copyFrom {src : St} (h : Ghost src) (dstVers : List Nat) : Ghost (
   have hces : (Sub.copyOf sb).ces = (popBack CE.alloc (min sb.cur 3) sb.ces).map (fun e => e.copied (min sb.cur 3)) := rfl
   rw [hces] at he1
   obtain ⟨e, he, rfl⟩ := List.mem_map.mp he1
-  exact (h sb hsb e (popBack_sublist _ _ _ e he)).copied.congr rfl rfl rfl rfl rfl rfl
+  exact (h sb hsb e (popBack_sublist _ _ _ e he)).copied.congr rfl (Nat.le_refl _) rfl rfl rfl rfl rfl
 
 theorem Ghost.fresh : Ghost ({} : St) := by intro sb hsb; simp at hsb
 
